@@ -270,6 +270,7 @@ class Fourier:
     def signal(self, signal):
         """Update signal in time domain {-1, 0, 1}."""
         self._signal = signal
+        self._check_time()
 
     @property
     def input_freq(self):
